@@ -249,6 +249,31 @@ def numeric_schemas(tier):
             if s.type_by_name("tn") is not None:
                 s.msgs[1].fields.append(Field("tnf", 7, "tn"))
             yield "num:%s=%r" % (where, form), s
+    # boundary values of every integer primitive in every value-carrying attribute (the emitted literal has to be valid C++
+    # for each of them: INT64_MIN cannot be spelled as one literal, its neighbours can)
+    R = {"int8": (-128, 127), "uint8": (0, 255), "int16": (-32768, 32767), "uint16": (0, 65535), "int32": (-2 ** 31, 2 ** 31 - 1),
+         "uint32": (0, 2 ** 32 - 1), "int64": (-2 ** 63, 2 ** 63 - 1), "uint64": (0, 2 ** 64 - 1)}
+    for bi, bname in enumerate(("min", "min+1", "max-1", "max")):
+        for where in ("minValue", "maxValue", "nullValue", "constant", "validValue"):
+            k += 1
+            s = template({}, "nu%d" % k)
+            fid = 30
+            for p, (lo, hi) in R.items():
+                v = (lo, lo + 1, hi - 1, hi)[bi]
+                nm = "b_" + p
+                if where == "minValue":
+                    s.types.append(T(nm, p, mn=v))
+                elif where == "maxValue":
+                    s.types.append(T(nm, p, mx=v))
+                elif where == "nullValue":
+                    s.types.append(T(nm, p, presence="optional", nl=v))
+                elif where == "constant":
+                    s.types.append(T(nm, p, presence="constant", const=v))
+                else:
+                    s.types.append(Enum(nm, p, [("A", v), ("B", lo + 2)]))
+                s.msgs[1].fields.append(Field("f_" + p, fid, nm))
+                fid += 1
+            yield "num:boundary:%s=%s" % (where, bname), s
     # ids that exceed the header field's type
     for where, val in (("message.id", 70000), ("schema.id", 70000), ("schema.version", 70000), ("message.blockLength", 70000)):
         k += 1
